@@ -353,6 +353,9 @@ func runC15(c *Ctx) {
 		}
 	}
 
+	clauseCacheReleaseDiscipline(c, "C15.g")
+	clauseBlobKeyStable(c, "C15.h")
+
 	// ---------- C15.c ----------
 	c.clause("C15.c", "T1", "prefetch and backgroundFetch bodies run only inside prefetchOnce / backgroundFetchOnce", 2)
 	for _, x := range [][3]string{{"(*layer).prefetch", "prefetchOnce", "(*layer).Prefetch"}, {"(*layer).backgroundFetch", "backgroundFetchOnce", "(*layer).BackgroundFetch"}} {
@@ -808,6 +811,8 @@ func runC20(c *Ctx) {
 			checkIdx(f)
 		}
 	}
+	clauseParsedPrefetchSizeAdopted(c, "C20.h")
+	clauseLoopGoroutinesOwnTheirVars(c, "C20.i", [][2]string{{"snapshot", "(*snapshotter).checkAvailability"}})
 	c.assume("containerd copies descriptor annotations with the containerd.io/snapshot/ prefix into snapshot labels unchanged")
 }
 
